@@ -255,6 +255,8 @@ func (w *world) apply(rep *replica, m message, what string) (objecttree.AddResul
 	}
 	before := iterIds(rep.tree)
 	rootBefore := rep.tree.Root().Id
+	prePath, _ := rep.tree.SnapshotPath()
+	pre := addRawPre{root: rootBefore, att: objecttree.VerifTree(rep.tree).VerifAttachedIds(), stored: storedIds(w.stored(rep)), path: append([]string{}, prePath...)}
 	rep.cache = nil
 	rep.tree.Lock()
 	res, err := rep.tree.AddRawChanges(w.ctx, objecttree.RawChangesPayload{NewHeads: m.heads, RawChanges: m.changes, SnapshotPath: m.path})
@@ -270,6 +272,15 @@ func (w *world) apply(rep *replica, m message, what string) (objecttree.AddResul
 	}
 	w.logf("%s rep%d<-rep%d heads=%s path=%s changes=%s mode=%s added=%s root=%s", what, rep.idx, m.from, join(m.heads), join(m.path), join(ids), modeName(res.Mode), join(added), rep.tree.Root().Id)
 	w.r.Count("apply." + what)
+	known := true
+	for _, id := range ids {
+		if w.info[id] == nil {
+			known = false
+		}
+	}
+	if known {
+		w.corrAddRaw(pre, ids, m.path, added, what)
+	}
 	if newRoot := rep.tree.Root().Id; newRoot != rootBefore {
 		back := false
 		for _, x := range w.snapChain(rootBefore)[1:] {
@@ -505,6 +516,7 @@ func (w *world) reopenReplica(rep *replica) {
 	if !eqStr(before, after) || rootBefore != rep.tree.Root().Id || !eqStr(headsBefore, sortedCopy(rep.tree.Heads())) {
 		w.violate("C06", "reopen.iter", fmt.Sprintf("rep%d presented %s (root %s heads %s) before close and %s (root %s heads %s) after reopen", rep.idx, join(before), rootBefore, join(headsBefore), join(after), rep.tree.Root().Id, join(sortedCopy(rep.tree.Heads()))))
 	}
+	w.corrRebuild(rep)
 	w.checkReplica(rep, "reopen")
 }
 
